@@ -43,6 +43,10 @@ func newWorldFor(cfg RunCfg) (*World, map[string]int) {
 		set |= cbKeyCompare
 	}
 	cb := neutralCallbacks(set, cmpOf)
+	valOverhead = 0
+	if set&cbCodec != 0 {
+		valOverhead = 1
+	}
 	var rc *RefCounter
 	if set&cbRefCount != 0 {
 		rc = NewRefCounter()
